@@ -3,7 +3,7 @@
   `get_dotted_key`, `dotted_key_exists`, `set_dotted_key`, `mix` (default arguments).
   Dotted keys are handled as *paths* (`List String`, the result of `str.split('.')`);
   the driver performs the split, the model never looks inside a segment except to decide
-  whether it is an index (`int(seg)` succeeds: a non-empty run of ASCII digits).
+  whether it is an index (`int(seg)` succeeds: an ASCII integer literal — sign, digit groups, white space around).
 -/
 import LabreaModel.Value
 namespace Labrea
@@ -19,10 +19,38 @@ inductive Lk (α : Type) where
 def digitsToNat (cs : List Char) : Nat :=
   cs.foldl (fun acc c => acc * 10 + (c.toNat - '0'.toNat)) 0
 
-/-- `int(seg)` on the modelled key universe -/
-def segIndex? (seg : String) : Option Nat :=
-  let cs := seg.toList
-  if !cs.isEmpty && cs.all Char.isDigit then some (digitsToNat cs) else Option.none
+/-- ASCII white space, which `int()` strips on both sides -/
+def isAsciiSpace (c : Char) : Bool := c == ' ' || c == '\t' || c == '\n' || c == '\r' || c == '\x0b' || c == '\x0c'
+
+/-- the digit groups of an integer literal: non-empty runs of ASCII digits separated by single underscores -/
+def digitGroups : List Char → Bool
+  | [] => false
+  | [c] => c.isDigit
+  | c :: d :: rest =>
+    if c.isDigit then (if d == '_' then digitGroups rest else digitGroups (d :: rest)) else false
+
+/-- `int(seg)` for ASCII input: optional white space on both sides, an optional sign, digit groups.
+    Result: (negative?, magnitude).  (Non-ASCII decimal digits, which `int()` also accepts, are outside the model.) -/
+def parseIntLit (cs : List Char) : Option (Bool × Nat) :=
+  let body := ((cs.dropWhile isAsciiSpace).reverse.dropWhile isAsciiSpace).reverse
+  let (neg, ds) := match body with
+    | '-' :: r => (true, r)
+    | '+' :: r => (false, r)
+    | r => (false, r)
+  if digitGroups ds then some (neg, digitsToNat (ds.filter Char.isDigit)) else Option.none
+
+/-- `int(seg)` succeeds: the magnitude of the index -/
+def segIndex? (seg : String) : Option Nat := (parseIntLit seg.toList).map Prod.snd
+
+/-- the index counts from the end (`L.-1`); `-0` is `0` -/
+def segFromEnd (seg : String) : Bool :=
+  match parseIntLit seg.toList with
+  | some (true, k) => k != 0
+  | _ => false
+
+/-- Python subscripting of a sequence by the integer a segment denotes -/
+def seqAt? {α} (seg : String) (i : Nat) (xs : List α) : Option α :=
+  if segFromEnd seg then (if i ≤ xs.length then xs[xs.length - i]? else Option.none) else xs[i]?
 
 /-- one subscript step of `get_dotted_key` -/
 def step (seg : String) (o : V) : Lk V :=
@@ -35,13 +63,13 @@ def step (seg : String) (o : V) : Lk V :=
       | Option.none => .keyErr
   | .list xs =>
     match segIndex? seg with
-    | some i => match xs[i]? with
+    | some i => match seqAt? seg i xs with
       | some v => .found v
       | Option.none => .keyErr
     | Option.none => .keyErr
   | .str s =>
     match segIndex? seg with
-    | some i => match s.toList[i]? with
+    | some i => match seqAt? seg i s.toList with
       | some c => .found (.str (String.singleton c))
       | Option.none => .keyErr
     | Option.none => .typeErr
